@@ -61,6 +61,49 @@ impl Write for Sink {
     }
 }
 
+/// a writer that accepts `left` more bytes and then fails (a peer that went away): used for the messages that PRECEDE the
+/// case on the same thread (`pre=entry:k,…`) — whatever a failed write leaves behind must not leak into the next message
+struct FailSink {
+    left: usize,
+}
+impl Write for FailSink {
+    fn write(&mut self, buf: &[u8]) -> io::Result<usize> {
+        if self.left == 0 {
+            return Err(io::Error::new(io::ErrorKind::BrokenPipe, "peer went away"));
+        }
+        let n = buf.len().min(self.left);
+        self.left -= n;
+        Ok(n)
+    }
+    fn flush(&mut self) -> io::Result<()> {
+        Ok(())
+    }
+}
+
+fn run_pre(spec: &str) {
+    for item in spec.split(',') {
+        let mut it = item.split(':');
+        let entry = it.next().unwrap_or("empty").to_string();
+        let k: usize = it.next().and_then(|s| s.parse().ok()).unwrap_or(0);
+        let _ = std::panic::catch_unwind(move || {
+            let mut sink = FailSink { left: k };
+            let status = Status::owned(503, "PRE FAILED".to_string());
+            let mut h = Headers::new_nodate();
+            h.add("x-pre", &b"stale"[..]);
+            let body = b"pre-body-pre-body".to_vec();
+            let rd = PieceReader { data: body.clone(), pos: 0, pieces: vec![3], k: 0 };
+            let _ = match entry.as_str() {
+                "empty" => HttpPrinter::write_response_empty(&mut sink, &status, &h),
+                "bytes" => HttpPrinter::write_response_bytes(&mut sink, &status, &h, &body),
+                "reader" => HttpPrinter::write_response(&mut sink, &status, &h, rd),
+                "request" => HttpPrinter::write_request(&mut sink, &Method::from("POST"), "/pre", &h, rd),
+                "cont" => HttpPrinter::write_100_continue(&mut sink),
+                _ => Ok(()),
+            };
+        });
+    }
+}
+
 pub fn print(arg: &str) -> String {
     let mut entry = "bytes";
     let mut code: u16 = 200;
@@ -91,6 +134,7 @@ pub fn print(arg: &str) -> String {
         if let Some(v) = w.strip_prefix("accept=") { accept = v.parse().ok() }
         if let Some(v) = w.strip_prefix("method=") { method = v.to_string() }
         if let Some(v) = w.strip_prefix("uri=") { uri = unhex(v) }
+        if let Some(v) = w.strip_prefix("pre=") { run_pre(v) }
     }
     // headers
     let mut store: Vec<(String, Vec<u8>)> = Vec::new();
